@@ -229,6 +229,17 @@ def mirror (e : Env) (toks : List String) (pre : World) : Env :=
     else e
   | [] => e
 
+/-- a dyadic rational with at most 26 significant bits (`_exact_double` of the harness): sums and products of two such
+numbers are exact in binary64 -/
+partial def oddPart (n : Nat) : Nat := if n == 0 then 0 else if n % 2 == 0 then oddPart (n / 2) else n
+def ratExact26 (q : Rat) : Bool :=
+  oddPart q.den == 1 && oddPart q.num.natAbs < 2 ^ 26 && q.den < 2 ^ 900 && q.num.natAbs < 2 ^ 900
+
+/-- every coefficient of every point and expression ever allocated in this world is `ratExact26`: the float computation
+of the implementation has not rounded so far (intermediate results that no `dump.*` line prints are included) -/
+def worldExact (w : World) : Bool :=
+  w.pts.all (fun p => p.d.all (fun kc => ratExact26 kc.2)) && w.exs.all (fun x => x.d.all (fun kc => ratExact26 kc.2))
+
 def stepCore (e : Env) (line : String) : Env × String :=
   let toks := (line.trimAscii.toString.splitOn " ").filter (· ≠ "")
   let res : Except String (Env × String) := do
@@ -450,6 +461,7 @@ def stepCore (e : Env) (line : String) : Env × String :=
       let some n := ns.toNat? | throw "bad n"
       pure (e, showSpec (Pepit.Method.subg γ n))
     | "note" :: _ => pure (e, "ok")
+    | ["probe.exact"] => pure (e, if worldExact e.w then "probe exact" else "probe inexact")
     | "trace.error" :: _ => pure (e, "ok no-error-expected")
     | ["expect.sent", _] =>
       -- the implementation side compares the replayed solver input with the one the example's own run produced
